@@ -200,7 +200,7 @@ class Interp:
             elif o.kind in ("break", "continue"):
                 raise Unsupported("break/continue outside loop")
             o.locals = o.state.env
-            o.state.env = saved_env
+            o.state.env = saved_env if len(outs) == 1 else dict(saved_env)
             res.append(o)
         return res
 
@@ -795,14 +795,14 @@ class Interp:
         return Opaque("builtin", name=e.id)
 
     def resolve_static(self, v, st, mod):
-        if isinstance(v, tuple) and v and v[0] == "const":
+        if isinstance(v, tuple) and v and isinstance(v[0], str) and v[0] == "const":
             saved = st.env
             st.env = {}
             try:
                 return self.eval(v[2], st, v[1])
             finally:
                 st.env = saved
-        if isinstance(v, tuple) and v and v[0] == "from":
+        if isinstance(v, tuple) and v and isinstance(v[0], str) and v[0] == "from":
             src, name = v[1], v[2]
             if src in self.mods:
                 menv = self.module_env(src)
@@ -1019,9 +1019,9 @@ class Interp:
                                       args, kwargs, fdef=fn.fdef, closure_env=fn.env) \
                 if False else self._call_closure(fn, args, kwargs, st)
             return _Outcomes(outs)
-        if isinstance(fn, tuple) and fn and fn[0] == "func":
+        if isinstance(fn, tuple) and fn and isinstance(fn[0], str) and fn[0] == "func":
             return self.call_named(fn[1], fn[2], None, args, kwargs, st, node)
-        if isinstance(fn, tuple) and fn and fn[0] == "class":
+        if isinstance(fn, tuple) and fn and isinstance(fn[0], str) and fn[0] == "class":
             h = self.reg.get((fn[1], fn[2] + ".__new__"))
             if h is None:
                 raise Unsupported(f"constructor {fn[1]}.{fn[2]} has no contract")
@@ -1069,7 +1069,7 @@ class Interp:
         for o in outs:
             if o.kind == "fall":
                 o = Outcome("return", o.state, None)
-            o.state.env = saved
+            o.state.env = saved if len(outs) == 1 else dict(saved)
             res.append(o)
         return res
 
@@ -1143,7 +1143,11 @@ class Interp:
                 return v != 0
         if isinstance(v, Ref):
             if v.kind == "list":
-                return len(st.cell(v)["__list__"]) > 0
+                c = st.cell(v)
+                if "__symlen__" in c:
+                    n = c["__symlen__"]
+                    return (n > 0) if isinstance(n, int) else (to_z3(n, "int") > 0)
+                return len(c["__list__"]) > 0
             if v.kind == "dict":
                 return len(st.cell(v)["__dict__"]) > 0
             if v.kind == "obj":
